@@ -518,6 +518,25 @@ var icmpTable = struct {
 	id:    1,
 }
 
+// icmpRegister hands out the next identifier that no ping is waiting on and registers the waiter.
+// With all 65536 identifiers waited for it fails instead of reusing one.
+func icmpRegister(msg *icmpEntry) (id uint16, err error) {
+	icmpTable.Lock()
+	defer icmpTable.Unlock()
+	if len(icmpTable.table) > 0xffff {
+		return 0, fmt.Errorf("no free echo identifier: %w", ErrNotFound)
+	}
+	for {
+		id = icmpTable.id
+		icmpTable.id++
+		if _, busy := icmpTable.table[id]; !busy {
+			break
+		}
+	}
+	icmpTable.table[id] = msg
+	return id, nil
+}
+
 func echoNotify(id uint16) {
 	icmpTable.Lock()
 	if len(icmpTable.table) <= 0 {
@@ -541,11 +560,10 @@ func (h *Session) Ping6(srcAddr Addr, dstAddr Addr, timeout time.Duration) (err 
 	msg := icmpEntry{expire: time.Now().Add(timeout), wakeup: make(chan bool)}
 	seq := uint16(1)
 
-	icmpTable.Lock()
-	id := icmpTable.id
-	icmpTable.id++
-	icmpTable.table[id] = &msg
-	icmpTable.Unlock()
+	id, err := icmpRegister(&msg)
+	if err != nil {
+		return err
+	}
 
 	if err = h.ICMP6SendEchoRequest(srcAddr, dstAddr, id, seq); err != nil {
 		icmpTable.Lock()
@@ -587,11 +605,10 @@ func (h *Session) ping(srcAddr Addr, dstAddr Addr, timeout time.Duration) (err e
 	msg := icmpEntry{expire: time.Now().Add(timeout), wakeup: make(chan bool)}
 	seq := uint16(1)
 
-	icmpTable.Lock()
-	id := icmpTable.id
-	icmpTable.id++
-	icmpTable.table[id] = &msg
-	icmpTable.Unlock()
+	id, err := icmpRegister(&msg)
+	if err != nil {
+		return err
+	}
 
 	if err = h.ICMP4SendEchoRequest(srcAddr, dstAddr, id, seq); err != nil {
 		icmpTable.Lock()
